@@ -290,7 +290,7 @@ pub fn check_frame(sim: &mut Sim, ci: usize) -> Result<(), Fail> {
                 format!("client {ci} at update tick {u}: {se} has components {have_set:?}, server had {exp_set:?}"),
             ));
         }
-        if !sim.or.values {
+        if !sim.or.values || sim.values_only.as_ref().is_some_and(|v| !v.contains(&ci)) {
             continue;
         }
         let Some(h) = cent.get::<ConfirmHistory>() else {
@@ -306,11 +306,11 @@ pub fn check_frame(sim: &mut Sim, ci: usize) -> Result<(), Fail> {
         let Some(vals) = sim.snap_vals.get(&t).and_then(|v| v.get(&se)) else {
             return Err(Fail::new("C02.unknown_tick", format!("client {ci}: {se} confirmed at tick {t} at which it was not replicated")));
         };
-        for k in ["A", "B", "C", "S", "R", "ChildOf", "X", "Y"] {
+        for k in ["A", "B", "C", "S", "R", "ChildOf", "OwnedBy", "X", "Y"] {
             if (k == "X" || k == "Y") && !vals.contains_key("X") {
                 continue;
             }
-            if (k == "R" || k == "ChildOf") && have.get(k) == Some(&u64::MAX) {
+            if (k == "R" || k == "ChildOf" || k == "OwnedBy") && have.get(k) == Some(&u64::MAX) {
                 // The reference points at a client entity the harness never saw mapped (it came and went within one
                 // client frame). That is the tick-t value if the server's target at tick t is an entity this client has
                 // meanwhile been told to drop.
@@ -410,6 +410,11 @@ pub fn check_converged(sim: &mut Sim) -> Result<(), Fail> {
             let cr = cw.get::<R>(ce).map(|r| Some(r.0));
             if sr != cr {
                 return Err(Fail::new("C01.value", format!("client {ci}: slot {slot} reference: server(mapped) {sr:?} client {cr:?}")));
+            }
+            let so = sw.get::<OwnedBy>(se).map(|r| map.to_client().get(&r.0).copied());
+            let co = cw.get::<OwnedBy>(ce).map(|r| Some(r.0));
+            if so != co {
+                return Err(Fail::new("C01.value", format!("client {ci}: slot {slot} owner: server(mapped) {so:?} client {co:?}")));
             }
             let sp = sw.get::<ChildOf>(se).map(|r| map.to_client().get(&r.0).copied());
             let cp = cw.get::<ChildOf>(ce).map(|r| Some(r.0));
